@@ -75,10 +75,11 @@ def check(case):
             st.add_resource(r)
         inst = st.specs()
         idx = st.index()
-        smap = {lx._id: lx.specifier() for lx in wn.lexicons()}
+        from ..observe import spec_map, lexspec
+        smap = spec_map()
 
         def name(x):
-            return f'{smap.get(x._lexid, "?")}|{x.id}'
+            return f'{lexspec(x, smap)}|{x.id}'
 
         def bad(key, msg):
             V.append((key, f'{msg} [installed {inst}]'))
